@@ -2,7 +2,7 @@
 C20 - Results do not depend on what the process did before.
 
 Explicit-state exploration over REAL process histories.  A state is a live interpreter; a transition executes one
-library operation on its own design (18-operation alphabet: designs of the probe's scale, 1000x larger and 1000x
+library operation on its own design (19-operation alphabet: designs of the probe's scale, 1000x larger and 1000x
 smaller, accepted and rejected inputs, every tool that keeps module-level state).  Every history up to the depth bound
 is executed in a freshly forked interpreter; in the reached state one forked child per probe runs the probed operation
 and reports a canonical digest of its observable result; the same probes forked from the pristine interpreter give the
@@ -25,15 +25,15 @@ PRELOAD = ['frame.geometry.geometry', 'frame.netlist.netlist', 'frame.die.die', 
            'tools.legalfloor.legalfloor', 'tools.force.fruchterman_reingold', 'tools.spectral.spectral',
            'tools.floorset_parser.floor_set_manager.strop', 'tools.floorset_parser.floor_set_manager.utils.utils',
            'tools.glbfloor.optimization', 'tools.netgen.netgen', 'numpy']
-RULE = ("all operation sequences of length <= 2 (quick) / <= 3 (thorough) over an 18-operation alphabet, each executed in a fresh interpreter forked from a pristine "
-        "(imports only) process; after each history every one of 13 probes is run in its own forked child and its canonical digest compared with the digest of the "
+RULE = ("all operation sequences of length <= 2 (quick) / <= 3 (thorough) over a 19-operation alphabet, each executed in a fresh interpreter forked from a pristine "
+        "(imports only) process; after each history every one of 14 probes is run in its own forked child and its canonical digest compared with the digest of the "
         "same probe forked from the pristine interpreter. states = distinct fingerprints of module-level mutable state reached; transitions = operations executed; "
         "traces validated = (history, probe) pairs compared.")
 ASSUMPTIONS = ["history designs are within a factor of 1000 of the probed design's scale (the statement's own bound)",
                "digests compare observable results: verdicts, regions/cells/roles rounded to 1e-9 of the design scale, projected model sets of encodings (auxiliary variable "
                "names are history-dependent by design), equation verdict vectors",
                "a probe that raises is digested as its exception type (so 'raises after a history but not alone' is a difference)"]
-BOUNDS = {'quick': 'depth 2: 1 + 18 + 324 histories x 13 probes', 'thorough': 'depth 3: 6175 histories x 13 probes'}
+BOUNDS = {'quick': 'depth 2: 1 + 19 + 361 histories x 14 probes', 'thorough': 'depth 3: 7240 histories x 14 probes'}
 MC_NOTE = ("the explored object is the real interpreter process; no model is involved: every history is executed, every probe runs on the state it reached")
 TECHNIQUE = "explicit-state exploration of real process histories (fork per history and per probe), invariant: probe digest equals the fresh-interpreter digest"
 
@@ -265,6 +265,51 @@ def op_misc(variant=1):
     return q.tostr(), _floorset(variant), _netgen('grid', [2, 2 + variant], '4x4'), _netgen('htree', [2]), _rectio(variant)
 
 
+YAML_TEXTS = {
+    'netlist11': "%YAML 1.1\n---\nModules:\n  M0: {area: 4, center: [1, 1]}\n  M1: {fixed: yes, rectangles: [[3.5, 0.5, 1, 1]]}\nNets:\n  - [M0, M1, 2]\n",
+    'die11': "%YAML 1.1\n---\nwidth: 4\nheight: 4\nregions:\n  - [0.5, 3.5, 1, 1, '#']\n",
+    'alloc': "- - [0.5, 0.5, 1, 1]\n  - {M0: 0.5}\n- - [1.5, 0.5, 1, 1]\n  - {M0: 1}\n",
+}
+
+
+def op_yaml_text():
+    """designs given as YAML TEXT (one of them announces itself as YAML 1.1) and as files"""
+    import tempfile
+    from frame.netlist.netlist import Netlist
+    from frame.die.die import Die
+    from frame.allocation.allocation import Allocation
+    n = Netlist(YAML_TEXTS['netlist11'])
+    Die(YAML_TEXTS['die11'], n)
+    Allocation(YAML_TEXTS['alloc'])
+    d = tempfile.mkdtemp(prefix='c20.')
+    p = os.path.join(d, 'n.yaml')
+    n.write_yaml(p)
+    Netlist(p)
+    os.unlink(p)
+    os.rmdir(d)
+
+
+def probe_yaml_text():
+    """plain YAML texts whose meaning differs between YAML 1.1 and 1.2 (yes/no booleans, leading-zero integers)"""
+    from frame.netlist.netlist import Netlist
+    from frame.die.die import Die
+    out = []
+    for txt in ("Modules:\n  M0: {area: 010, center: [1, 1]}\n  M1: {area: 2, center: [2, 2]}\nNets:\n  - [M0, M1]\n",
+                "Modules:\n  M0: {area: 4}\n  M1: {fixed: yes, rectangles: [[3.5, 0.5, 1, 1]]}\nNets:\n  - [M0, M1]\n",
+                "Modules:\n  M0: {area: 4}\n  M1: {fixed: true, rectangles: [[3.5, 0.5, 1, 1]]}\nNets:\n  - [M0, M1, 0.5]\n"):
+        try:
+            n = Netlist(txt)
+            out.append(dg_netlist(n, 1.0) if all(m.center is not None for e in n.edges for m in e.modules)
+                       else [(m.name, m.area(), m.is_fixed) for m in n.modules])
+        except AssertionError as e:
+            out.append(['rejected', str(e)[:60]])
+    try:
+        out.append(dg_die(Die("width: 4\nheight: 010\n"), 4.0))
+    except AssertionError as e:
+        out.append(['rejected', str(e)[:60]])
+    return out
+
+
 OPS = {
     'netlist': lambda: op_netlist(1.0, 1),
     'netlist_x1000': lambda: op_netlist(1000.0, 1),
@@ -284,6 +329,7 @@ OPS = {
     'glbfloor': lambda: op_glb(1),
     'misc_writers': lambda: op_misc(1),
     'die_pattern': op_die_pattern,
+    'yaml_text': op_yaml_text,
 }
 
 
@@ -493,7 +539,7 @@ def probe_writers():
 PROBES = {
     'netlist': probe_netlist, 'netlist_dec': probe_netlist_dec, 'bad_netlists': probe_bad_netlists, 'die': probe_die,
     'bad_dies': probe_bad_dies, 'alloc': probe_alloc, 'initial_alloc': probe_initial_alloc, 'pb': probe_pb, 'legal': probe_legal,
-    'strop': probe_strop, 'force_spectral': probe_force_spectral, 'rect': probe_rect, 'writers': probe_writers,
+    'strop': probe_strop, 'force_spectral': probe_force_spectral, 'rect': probe_rect, 'writers': probe_writers, 'yaml_text': probe_yaml_text,
 }
 
 
